@@ -14,7 +14,7 @@ definition to the environment `envOf base g` whose field of key `j` is the value
 whose non-key fields (kappa, Lambda, the abstract operator D, sqrt/log/exp/abs, coordinates) come from `base`.
 
 Keys that cannot be mapped (no traced alternative: Weyl_Psi, Psi4_lm, Weyl_invariants; tuple-valued: dtconserved; the
-256-component keys of the `Big` group other than those of EXTRA_GROUPS = st_Riemann_down4, to keep compile time low) are left to the parameter `rest` of `leafGen`, i.e.
+256-component keys of the `Big` group other than those of EXTRA_GROUPS = st_Riemann_down4, st_Riemann_uddd4, to keep compile time low) are left to the parameter `rest` of `leafGen`, i.e.
 their return-site formulas are ARBITRARY in every theorem stated over this table.
 """
 import os
@@ -31,7 +31,12 @@ FALSE_FLAGS = {"np.shape(f)[i] != dim[s_or_st]"}
 GROUPS = ("Keys", "Curv")
 # 256-component keys whose return sites ARE generated (extension round 6): group -> module to import.  The others of the
 # `Big` group stay with `rest` (compile time).
-EXTRA_GROUPS = {"Big_st_Riemann_down4": "AurelVerif.Gen.CoreBig_st_Riemann_down4"}
+EXTRA_GROUPS = {"Big_st_Riemann_down4": "AurelVerif.Gen.CoreBig_st_Riemann_down4",
+                # extension round 7 (Props/C01TabS.lean): `st_Riemann_uddd4` (key 119), read by the contraction alternative of
+                # `st_Ricci_down4`.  `st_Weyl_down4` (Big_st_Weyl_down4) can NOT be mapped by `site_map` as it stands: its return
+                # sites 3 and 4 are reached only when the zero-shift test of `s_to_st` changes its outcome between two of the
+                # three calls inside ONE body (eviction of `betaup3` in between) — no traced alternative has such a presence set.
+                "Big_st_Riemann_uddd4": "AurelVerif.Gen.CoreBig_st_Riemann_uddd4"}
 
 
 def _ty(shape):
